@@ -446,5 +446,7 @@ pub fn run(tier: Tier, _replay: Option<String>) -> i32 {
     // the statistic itself: what a trajectory reports as its acceptance rate (0 for a divergent
     // leapfrog) - histories of the real chain judged against the mirror chain's recorded energies
     report.merge(crate::c03::acceptance_statistic_partial(tier));
+    // which statistic steers which phase (plain early, symmetric late), dual averaging and Adam
+    report.merge(crate::c09::step_size_statistic_partial(tier));
     report.finish()
 }
